@@ -182,4 +182,23 @@ def rule_load_ta(ctx):
     ctx.floor('K4', 'streaming limit in load_ta', n, 1)
 
 
-RULES = [rule_option_order, rule_wiring, rule_read, rule_load_ta]
+def rule_zero_disables(ctx):
+    """`max-object-size = 0` (config file) and `--max-object-size 0` (command line) mean "no limit" (None)."""
+    from props.C35 import reader_table, zero_guard_store
+    rt = reader_table(ctx)
+    if rt is None:
+        return
+    rb, reader = rt
+    r = reader.get('max_object_size')
+    ctx.check(r is not None and r['zero_none'], 'K4', 'config-file:max-object-size=0=>None',
+              'the config file reader maps max-object-size = 0 to None (limit disabled)',
+              'Config::from_config_file no longer maps `max-object-size = 0` to None (%s): an operator who disabled the limit gets '
+              'the default limit, and larger objects are refused' % (r['desc'][:120] if r else 'field not read'),
+              loc='%s:%d' % (rb.file, rb.line))
+    b = ctx.body('config::Config::apply_arg_matches')
+    ctx.check(zero_guard_store(b, 'max_object_size', 'max_object_size'), 'K4', 'command-line:max-object-size=0=>None',
+              'the command line maps --max-object-size 0 to None', 'the command line stores Some(0) (or a default) for --max-object-size 0',
+              loc='%s:%d' % (b.file, b.line))
+
+
+RULES = [rule_zero_disables, rule_option_order, rule_wiring, rule_read, rule_load_ta]
